@@ -26,6 +26,9 @@ func init() {
 	reg1("C08Tsr", SetupC08Tsr, HarnessC08Tsr)
 	reg1("C11Serve", SetupC11Serve, HarnessC11Serve)
 	reg1("C14Seq", SetupC14Seq, HarnessC14Seq)
+	reg0("C13Chain", HarnessC13Chain)
+	reg0("C19Options", HarnessC19Options)
+	reg0("C19ClientIP", HarnessC19ClientIP)
 	reg1("C14AB", SetupC14AB, HarnessC14AB)
 	reg1("C14Caps", SetupC14Caps, HarnessC14Caps)
 	reg1("C20Log", SetupC20Log, HarnessC20Log)
